@@ -78,6 +78,25 @@ func PinnedHelperRedeclared(name string) *Case {
 	return c
 }
 
+// PinnedHelperRedeclaredSpelled is PinnedHelperRedeclared with the two converters naming their common output
+// package in two ways (one spells output:package PATH:NAME with the default values, the other leaves it out,
+// or only one of them gives the path): files of one directory share their helper names however the package is written.
+func PinnedHelperRedeclaredSpelled(name string, variant int) *Case {
+	c := PinnedHelperRedeclared(name)
+	pkg := c.Root + "/conv/generated"
+	switch variant {
+	case 0:
+		c.Convs[0].Lines = append(c.Convs[0].Lines, "output:package "+pkg+":generated")
+	case 1:
+		c.Convs[1].Lines = append(c.Convs[1].Lines, "output:package "+pkg+":generated")
+		c.Convs[0].Lines = append(c.Convs[0].Lines, "output:package "+pkg)
+	default:
+		c.Convs[1].Lines = append(c.Convs[1].Lines, "output:package :generated")
+	}
+	c.Feature("tag", "multi-file-pkg,pinned,pkg-spelling")
+	return c
+}
+
 // PinnedSkipCopyAddr reproduces the fixed finding "skipCopySameType + T -> *T takes the address of a
 // source field": *In{L []int} -> *Out{L *[]int}.
 func PinnedSkipCopyAddr(name string) *Case {
